@@ -1729,10 +1729,18 @@ def _format_t(path, root=T):
     while i < len(path):
         op, arg = path[i], path[i + 1]
         if op == '.':
-            prepr.append('.' + arg)
+            if arg.startswith('__'):  # dunder attrs are only reachable via T.__()
+                prepr.append('.__(%s)' % bbrepr(arg[2:]))
+            else:
+                prepr.append('.' + arg)
         elif op == '[':
             if type(arg) is tuple:
-                index = ", ".join([_format_slice(x) for x in arg])
+                if not arg:
+                    index = '()'
+                else:
+                    index = ", ".join([_format_slice(x) for x in arg])
+                    if len(arg) == 1:
+                        index += ','
             else:
                 index = _format_slice(arg)
             prepr.append(f"[{index}]")
